@@ -88,6 +88,26 @@ def gen_obligations(suite, c, bits=None):
         for a in (fn.args.vararg, fn.args.kwarg):
             if a is not None:
                 st.env[a.arg] = ex.opaque()
+        if fn.args.kwarg is not None and c.kwargs:
+            kwd = {}
+            for k, ty in c.kwargs.items():
+                f = parse_type(ty)
+                if f.kind == "ref":
+                    v = SV("ref", z3.Const("in_%s" % k, Ref), cls=f.cls)
+                    if not f.opt:
+                        st.assume(v.t != NONE)
+                        v.x = "nonnull"
+                elif f.kind == "opaque":
+                    v = ex.opaque()
+                else:
+                    t = z3.Const("in_%s" % k, {"int": z3.IntSort(), "bool": z3.BoolSort(), "real": z3.RealSort(), "bits": ex.bits.sort, "str": z3.IntSort()}[f.kind])
+                    v = SV(f.kind, t, none=(z3.Bool("in_%s?none" % k) if f.opt else None))
+                    if f.kind == "bits":
+                        st.assume(ex.bits.wf(t))
+                kwd[k] = v
+                inputs[k] = (f, v)
+                st.env.setdefault(k, v)   # so that the contract's spec can name the keyword like a parameter
+            st.env[fn.args.kwarg.arg] = SV("kwdict", kwd)
     old = st.copy()
     ex.old_state = old
     pre = ex.spec_eval(c.requires, st, None, None)
